@@ -802,6 +802,7 @@ func (e *Enc) special(fr *Frame, st *State, full string, callee *ssa.Function, a
 			v := args[len(args)-1].term()
 			bt := elemType(b.T)
 			big := strings.Contains(full, "bigEndian")
+			e.note("encoding/binary fixed-width accessors are modelled exactly (base-256 digits, big/little endian); library semantics assumed")
 			// the bytes are fresh digits d_w in [0,255] with v == sum d_w * 256^w (the base-256
 			// representation exists and is unique for 0 <= v < 256^n, which the argument's type
 			// guarantees): linear for the solvers, unlike div/mod chains
@@ -840,6 +841,7 @@ func (e *Enc) special(fr *Frame, st *State, full string, callee *ssa.Function, a
 		e.boundsCheck(st, fmt.Sprintf("(>= %s %s)", b.S[1], n), "binary.UintN: buffer too short at "+e.w.posOf(site.Pos()))
 		// exact: the value of the n bytes read big/little-endian
 		{
+			e.note("encoding/binary fixed-width accessors are modelled exactly (base-256 digits, big/little endian); library semantics assumed")
 			nn, _ := strconv.Atoi(n)
 			bt := elemType(b.T)
 			big := strings.Contains(full, "bigEndian")
@@ -880,6 +882,7 @@ func (e *Enc) special(fr *Frame, st *State, full string, callee *ssa.Function, a
 							terms = append(terms, v.term())
 						}
 					}
+					e.note("fmt.Sprintf of a constant format and scalar arguments is modelled as an uninterpreted function of the format and the argument values (library semantics assumed)")
 					name := fmt.Sprintf("sprintf%d", len(ops))
 					e.w.declareUF(e.s, name, len(ops)+1, "Int")
 					return e.nameVal(intVal(rt, app(name, terms...)), "str"), true
